@@ -67,6 +67,7 @@ class _Gen:
         self.s_msg_or_none = st.sampled_from([None, None] + _MESSAGES)
         self.s_val = st.one_of(jg.cheap_value(), jg.cheap_value(), jg.cheap_value(), jg.json_value(6))
         self.s_typed = st.sampled_from(_TYPED)
+        self.s_retval = st.one_of(st.sampled_from([0, False, '', [], {}, 0.0, None, -0.0]), self.s_val, self.s_val)
         self.s_exc = st.sampled_from(EXC_NAMES)
         self.s_marker = st.integers(0, 10**6)
         self.rpc_error = st.composite(lambda draw: self._rpc_error(draw))()
@@ -89,7 +90,7 @@ class _Gen:
         bits = draw(self.s_bits)
         out = {}
         if bits & 1:
-            out['ret'] = {'kind': 'return', 'value': draw(self.s_val)}
+            out['ret'] = {'kind': 'return', 'value': draw(self.s_retval)}
         if bits & 2:
             out['rpc_err'] = {'kind': 'raise_rpc', 'error': self._rpc_error(draw)}
         if bits & 4:
